@@ -359,14 +359,15 @@ class Property(css_parser.util.Base):
                            self._valuestr(priority))
 
         if wellformed:
+            # validate priority before anything is committed
+            newpriority = self._normalize(new['literalpriority'])
+            if newpriority not in ('', 'important'):
+                self._log.error('Property: No CSS priority value: %s' %
+                                newpriority)
             self.wellformed = self.wellformed and wellformed
             self._literalpriority = new['literalpriority']
-            self._priority = self._normalize(self.literalpriority)
+            self._priority = newpriority
             self.seqs[2] = newseq
-            # validate priority
-            if self._priority not in ('', 'important'):
-                self._log.error('Property: No CSS priority value: %s' %
-                                self._priority)
 
     priority = property(lambda self: self._priority, _setPriority,
                         doc="Priority of this property.")
